@@ -386,7 +386,7 @@ pub fn main(args: &Args) -> ! {
     rep.set("max_events", json!(max_len));
     rep.set("max_events_pairs_with_join", json!(max_len_join));
     rep.absorb(acc);
-    rep.rule = "Exhaustive differential enumeration. P ranges over the C16 catalogue (21 programs: filter, emit-less filter, count window+aggregate, 2-/3-step sequence, join, .process, siblings, derived chains, diamond, chain into window/sequence/join). P' = P (identity) or P with one edit of one stream: threshold change, count-window size change, added/removed .where, stream renamed (references updated), sequence step added/removed. Inputs: every event sequence of length 1..=max over types {A,B} x v {1,2} (x k {x,y} when a join is present; max is one less for those pairs), reload at every position 0..=n. Each case runs a fresh engine of P through Engine::process up to the reload position, Engine::reload(P'), then the suffix; the outputs after the reload are compared with (identity / unchanged streams) the same engine's outputs for the suffix without reload and (changed streams) a fresh engine of P' fed the suffix. Non-trivial = the demanded output is non-empty.".into();
+    rep.rule = "Exhaustive differential enumeration. P ranges over the C16 catalogue (25 programs: filter, emit-less filter, count window+aggregate, 2-/3-step sequence, join, .process, siblings, derived chains, diamond, chain into window/sequence/join). P' = P (identity) or P with one edit of one stream: threshold change, count-window size change, added/removed .where, stream renamed (references updated), sequence step added/removed. Inputs: every event sequence of length 1..=max over types {A,B} x v {1,2} (x k {x,y} when a join is present; max is one less for those pairs), reload at every position 0..=n. Each case runs a fresh engine of P through Engine::process up to the reload position, Engine::reload(P'), then the suffix; the outputs after the reload are compared with (identity / unchanged streams) the same engine's outputs for the suffix without reload and (changed streams) a fresh engine of P' fed the suffix. Non-trivial = the demanded output is non-empty.".into();
     rep.assume("only Engine::process drives the events (reload is orthogonal to the entry point; entry-point equivalence is C16)");
     rep.assume("outputs are compared per stream (sequence of each stream's outputs); the interleaving of different streams' outputs for one input event follows hash-map iteration after a reload and is a don't-care (counted as identity_reloads_changing_only_cross_stream_order)");
     rep.assume("streams downstream of a changed stream, and streams that exist only in the old program, are don't-cares");
